@@ -209,6 +209,87 @@ def work_range(job):
     return acc.result()
 
 
+ERRS = ('#NUM!', '#VALUE!', '#N/A', '#DIV/0!', '#REF!', '#NAME?', '#NULL!')
+BAD_SERIALS = [-1e300, -1e10, -1, -0.5, -1e-9, C.MAX_SERIAL + 1, C.MAX_SERIAL + 1.5, C.MAX_SERIAL + 2, 1e7, 1e10, 1e12, 1e300]
+BAD_SHIFTS = [-1e300, -1e10, -10 ** 6, 10 ** 6, 1e10, 1e300]
+ODD_TYPES = ['45000', '1', 'abc', '', ' ', True, False, None, '#N/A', '#DIV/0!', '12:00', '1900-01-01']
+FUNCS = [('YEAR', [45000]), ('MONTH', [45000]), ('DAY', [45000]), ('WEEKDAY', [45000]), ('HOUR', [0.5]), ('MINUTE', [0.5]),
+         ('SECOND', [0.5]), ('EDATE', [45000, 1]), ('EOMONTH', [45000, 1]), ('DATE', [2000, 1, 1]), ('YEARFRAC', [45000, 45100, 0])]
+
+
+def work_offgrid(job):
+    """every argument position of every function x (values outside the calendar, values of every other type,
+    in-range values with a fraction): nothing raises; a result outside the calendar is #NUM!; the date part of a
+    serial with a time-of-day fraction is that of the day."""
+    acc = Acc()
+    ev = feval.Evaluator()
+
+    def call(fn, args):
+        env = {f'{chr(65 + i)}1': a for i, a in enumerate(args)}
+        f = f"={fn}({','.join(f'{chr(65 + i)}1' for i in range(len(args)))})"
+        acc.add('evaluations')
+        acc.add('states')
+        acc.add('distinct_nontrivial')
+        return f, env, ev.run(f, env)
+
+    for fn, base in FUNCS:
+        for pos in range(len(base)):
+            if fn in ('HOUR', 'MINUTE', 'SECOND'):
+                pool = [(v, '#NUM!' if v < 0 else None) for v in BAD_SERIALS]
+            elif fn == 'DATE':
+                pool = [(v, '#NUM!') for v in ([-1, -0.5, 10000, 10400, 1e10, 1e300, -1e300] if pos == 0 else
+                                               ([-10 ** 6, 10 ** 6, 99999 * 12, -2000 * 12] if pos == 1 else [-10 ** 6, 10 ** 7]) + [-1e10, 1e10, -1e300, 1e300])]
+            elif fn == 'YEARFRAC' and pos == 2:
+                pool = [(v, '#NUM!') for v in (-1, 5, 7, 1e10, -1e300)]
+            elif pos == 0 or fn == 'YEARFRAC':
+                pool = [(v, '#NUM!') for v in BAD_SERIALS]
+            else:
+                pool = [(v, '#NUM!') for v in BAD_SHIFTS]
+            pool += [(v, 'any') for v in ODD_TYPES]
+            for v, want in pool:
+                args = list(base)
+                args[pos] = v
+                f, env, o = call(fn, args)
+                case = dict(kind='offgrid', fn=fn, pos=pos, arg=jsonable(v), atype=type(v).__name__)
+                if o[0] != 'ok':
+                    acc.violation(dict(case, verdict='raised', exc=o[1]), f'{f} with {env} raised {o[1]}: {o[2][-100:]}')
+                elif isinstance(o[1], bool) or not (isinstance(o[1], (int, float)) or o[1] in ERRS):
+                    acc.violation(dict(case, verdict='not-a-number-or-error', observed=jsonable(o[1])),
+                                  f'{f} with {env} = {o[1]!r}: neither a number nor an error value')
+                elif want == '#NUM!' and o[1] != '#NUM!':
+                    acc.violation(dict(case, verdict='not-num-error', observed=jsonable(o[1])),
+                                  f'{f} with {env} = {o[1]!r}; the argument is outside the calendar, expected #NUM!')
+                elif want is None and isinstance(o[1], (int, float)) and not (0 <= o[1] <= 59):
+                    acc.violation(dict(case, verdict='part-out-of-range', observed=jsonable(o[1])), f'{f} with {env} = {o[1]!r}')
+    # a time of day on top of the date: the date parts are those of the day
+    for n in [0, 1, 58, 59, 60, 61, 365, 366, 367, 45000, 73050, C.MAX_SERIAL - 1, C.MAX_SERIAL]:
+        for fr in (0.25, 0.5, 0.999):
+            for fn in ('YEAR', 'MONTH', 'DAY', 'WEEKDAY'):
+                f, env, o = call(fn, [n + fr])
+                _, _, o0 = call(fn, [n])
+                if o[:2] != o0[:2]:
+                    acc.violation(dict(kind='offgrid', fn=fn, pos=0, arg=n + fr, atype='float', verdict='fraction-changes-date',
+                                       observed=jsonable(o[:2]), expected=jsonable(o0[:2])),
+                                  f'={fn}({n + fr}) -> {o[:2]!r} but ={fn}({n}) -> {o0[:2]!r}')
+            for fn in ('EDATE', 'EOMONTH'):
+                for k in (-13, -1, 0, 1, 13):
+                    f, env, o = call(fn, [n + fr, k])
+                    _, _, o0 = call(fn, [n, k])
+                    if o[:2] != o0[:2]:
+                        acc.violation(dict(kind='offgrid', fn=fn, pos=0, arg=n + fr, atype='float', shift=k, verdict='fraction-changes-date',
+                                           observed=jsonable(o[:2]), expected=jsonable(o0[:2])),
+                                      f'={fn}({n + fr},{k}) -> {o[:2]!r} but ={fn}({n},{k}) -> {o0[:2]!r}')
+                    # a fractional shift is a shift by an adjacent whole number of months
+                    f, env, o = call(fn, [n, k + fr])
+                    _, _, o1 = call(fn, [n, k + 1])
+                    if o[0] != 'ok' or o[:2] not in (o0[:2], o1[:2]):
+                        acc.violation(dict(kind='offgrid', fn=fn, pos=1, arg=k + fr, atype='float', serial=n, verdict='fractional-shift',
+                                           observed=jsonable(o[:2]), expected=jsonable([o0[1], o1[1]])),
+                                      f'={fn}({n},{k + fr}) -> {o[:2]!r}: neither the shift by {k} ({o0[1]!r}) nor by {k + 1} ({o1[1]!r})')
+    acc.counts['transitions'] = acc.counts.get('evaluations', 0)
+    return acc.result()
+
+
 def run(ctx):
     tbl = C.first_of_month_table()
     jobs = []
@@ -236,6 +317,7 @@ def run(ctx):
         ctx.pmap(work_seconds, [(s, min(s + 5400, 86400), day, fracs) for s in range(0, 86400, 5400)], timeout=3000)
     ctx.pmap(work_yearfrac, [(0,)], timeout=3000)
     ctx.pmap(work_range, [(0,)], timeout=600)
+    ctx.pmap(work_offgrid, [(0,)], timeout=600)
     ctx.sample(dict(state=[60, 1900, 2, 29, 4], note='serial 60 is the fictitious 1900-02-29'))
     ctx.sample(dict(state=[0, 1900, 1, 0, 7]))
     ctx.sample(dict(formula='=EOMONTH(1,1)', expected=60))
@@ -259,6 +341,9 @@ def replay(case):
         r['violations'] = [(c, m) for c, m in r['violations'] if c['serial'] == case['serial'] and c['fn'] == case['fn']]
     elif k == 'seconds':
         r = work_seconds((case['second'], case['second'] + 1, case.get('day', 0), (case.get('frac', 0),)))
+    elif k == 'offgrid':
+        r = work_offgrid((0,))
+        r['violations'] = [(c, m) for c, m in r['violations'] if all(c.get(x) == case.get(x) for x in ('fn', 'pos', 'arg', 'atype', 'verdict', 'shift'))]
     elif k == 'yearfrac':
         r = work_yearfrac((0,))
         r['violations'] = [(c, m) for c, m in r['violations'] if (c['a'], c['b'], c['basis']) == (case['a'], case['b'], case['basis'])]
